@@ -1,8 +1,5 @@
 import Ebu.Spec.Bus
-import Ebu.Proofs.BusRefine
 import Ebu.Proofs.BusFrame
-import Ebu.Proofs.BusPersist
-import Ebu.Proofs.BusObs
 /-!
 C08 — Cancellation, context propagation and publish hooks behave predictably
 
